@@ -223,12 +223,32 @@ func pdfSingleFaults(b *base, emit func(desc string, data []byte)) {
 // earlier xref sections (/Prev) and startxref that lie behind the edit are
 // shifted by delta. Returns nil when the edit touches the xref data itself.
 func fixupXRef(b *base, data []byte) []byte {
-	d := b.data
-	delta := len(data) - len(d)
-	if delta == 0 {
+	if len(data) == len(b.data) {
 		return nil
 	}
-	// common prefix / suffix locate the edit
+	ed, ok := diffEdit(b.data, data)
+	if !ok {
+		return nil
+	}
+	return fixupEdits(b, []edit{ed})
+}
+
+func maxInt(a, b int) int {
+	if a > b {
+		return a
+	}
+	return b
+}
+
+// edit replaces d[start:end] of the base by repl.
+type edit struct {
+	start, end int
+	repl       []byte
+	desc       string
+}
+
+// diffEdit expresses a faulted file as one edit of the base (common prefix / suffix).
+func diffEdit(d, data []byte) (edit, bool) {
 	p := 0
 	for p < len(d) && p < len(data) && d[p] == data[p] {
 		p++
@@ -237,17 +257,44 @@ func fixupXRef(b *base, data []byte) []byte {
 	for q < len(d)-p && q < len(data)-p && d[len(d)-1-q] == data[len(data)-1-q] {
 		q++
 	}
-	editEnd := len(d) - q // in the original
-	out := append([]byte{}, data...)
-	shift := func(pos int) int { // position in the original -> position in the edited file
-		if pos >= editEnd {
-			return pos + delta
-		}
-		return pos
+	if p == len(d) && p == len(data) {
+		return edit{}, false
 	}
+	return edit{start: p, end: len(d) - q, repl: append([]byte{}, data[p:len(data)-q]...)}, true
+}
+
+// applyEdits applies non-overlapping edits (any order) to the base.
+func applyEdits(d []byte, eds []edit) []byte {
+	s := append([]edit{}, eds...)
+	sort.Slice(s, func(i, j int) bool { return s[i].start > s[j].start })
+	out := append([]byte{}, d...)
+	for _, e := range s {
+		out = splice(out, e.start, e.end, e.repl)
+	}
+	return out
+}
+
+// fixupEdits applies the edits and repairs the classic cross-reference data
+// (object offsets, /Prev, startxref) behind them; nil when an edit touches
+// those data themselves or a repaired number would change its digit count.
+func fixupEdits(b *base, eds []edit) []byte {
+	d := b.data
+	out := applyEdits(d, eds)
+	shift := func(pos int) int { // position in the original -> position in the edited file
+		n := pos
+		for _, e := range eds {
+			if pos >= e.end {
+				n += len(e.repl) - (e.end - e.start)
+			}
+		}
+		return n
+	}
+	changed := false
 	fixNum := func(f pdfw.Field, width int) bool {
-		if f.Start < editEnd && f.End > p {
-			return false // the edit hit this field
+		for _, e := range eds {
+			if f.Start < e.end && f.End > e.start {
+				return false // an edit hit this field
+			}
 		}
 		tok := string(d[f.Start:f.End])
 		loc := intRe.FindStringIndex(tok)
@@ -255,17 +302,19 @@ func fixupXRef(b *base, data []byte) []byte {
 			return true
 		}
 		v, err := strconv.Atoi(tok[loc[0]:loc[1]])
-		if err != nil || v < editEnd {
-			return true // points before the edit: unchanged
+		if err != nil || shift(v) == v {
+			return true // points before every edit: unchanged
 		}
-		ns := strconv.Itoa(v + delta)
+		nv := shift(v)
+		ns := strconv.Itoa(nv)
 		if width > 0 {
-			ns = fmt.Sprintf("%0*d", width, v+delta)
+			ns = fmt.Sprintf("%0*d", width, nv)
 		}
 		if len(ns) != loc[1]-loc[0] {
 			return false // digit count changes: would shift everything again
 		}
 		copy(out[shift(f.Start)+loc[0]:], ns)
+		changed = true
 		return true
 	}
 	for i, f := range b.fields {
@@ -287,6 +336,9 @@ func fixupXRef(b *base, data []byte) []byte {
 				}
 			}
 		}
+	}
+	if !changed {
+		return nil
 	}
 	return out
 }
@@ -758,14 +810,81 @@ func buildCases(c *fw.Ctx) []*Case {
 		case b.kind == "pdf":
 			classic := !bytes.Contains(b.data, []byte("/XRef"))
 			pdfSemanticFaults(b, emit)
+			var singles []edit
 			pdfSingleFaults(b, func(desc string, data []byte) {
 				add(b, desc, data)
-				if classic && !strings.HasPrefix(desc, "truncate") {
+				if strings.HasPrefix(desc, "truncate") {
+					return
+				}
+				if ed, ok := diffEdit(b.data, data); ok {
+					ed.desc = desc
+					singles = append(singles, ed)
+				}
+				if classic {
 					if fx := fixupXRef(b, data); fx != nil {
 						add(b, desc+" [xref offsets repaired]", fx)
 					}
 				}
 			})
+			// double applications of the catalogue: half of the pairs combine a number
+			// that lies about a size or count with a structural break (retargeted
+			// reference, dropped / duplicated object, unbalanced delimiter), the rest
+			// are uniform; the edits never overlap
+			var lies, breaks []int
+			for i, e := range singles {
+				switch {
+				case strings.Contains(e.desc, "=9223372036854775807") || strings.Contains(e.desc, "=2147483648") || strings.Contains(e.desc, "=4294967295") || strings.Contains(e.desc, "=-1") || strings.HasPrefix(e.desc, "entry "):
+					lies = append(lies, i)
+				case strings.HasPrefix(e.desc, "ref ") || strings.HasPrefix(e.desc, "object-") || strings.HasPrefix(e.desc, "delim-"):
+					breaks = append(breaks, i)
+				}
+			}
+			// targeted: a lie in a page-tree /Count together with a break of the page tree
+			// itself (a count that the traversal can no longer confirm)
+			var countLies, treeBreaks []int
+			for i, e := range singles {
+				ctx := string(b.data[maxInt(0, e.start-12):e.start])
+				switch {
+				case strings.HasPrefix(e.desc, "entry /Count") || (strings.HasPrefix(e.desc, "int ") && strings.HasSuffix(strings.TrimSpace(ctx), "/Count")):
+					countLies = append(countLies, i)
+				case strings.HasPrefix(e.desc, "ref ") && (strings.Contains(ctx, "/Kids") || strings.Contains(ctx, " R") || strings.Contains(ctx, "/Parent") || strings.Contains(ctx, "/Pages")):
+					treeBreaks = append(treeBreaks, i)
+				case strings.HasPrefix(e.desc, "object-drop"):
+					treeBreaks = append(treeBreaks, i)
+				}
+			}
+			rt := c.Rand("double-pagetree", b.id)
+			for k := 0; k < c.N(300, 4000) && len(countLies) > 0 && len(treeBreaks) > 0; k++ {
+				a, bb := singles[countLies[rt.Intn(len(countLies))]], singles[treeBreaks[rt.Intn(len(treeBreaks))]]
+				if a.start < bb.end && bb.start < a.end {
+					continue
+				}
+				desc := a.desc + " ++ " + bb.desc
+				add(b, desc, applyEdits(b.data, []edit{a, bb}))
+				if classic {
+					if fx := fixupEdits(b, []edit{a, bb}); fx != nil {
+						add(b, desc+" [xref offsets repaired]", fx)
+					}
+				}
+			}
+			rp := c.Rand("double", b.id)
+			for k := 0; k < c.N(500, 8000) && len(singles) > 1; k++ {
+				i, j := rp.Intn(len(singles)), rp.Intn(len(singles))
+				if k%2 == 0 && len(lies) > 0 && len(breaks) > 0 {
+					i, j = lies[rp.Intn(len(lies))], breaks[rp.Intn(len(breaks))]
+				}
+				a, bb := singles[i], singles[j]
+				if a.start < bb.end && bb.start < a.end || (a.start == bb.start) {
+					continue
+				}
+				desc := a.desc + " ++ " + bb.desc
+				add(b, desc, applyEdits(b.data, []edit{a, bb}))
+				if classic {
+					if fx := fixupEdits(b, []edit{a, bb}); fx != nil {
+						add(b, desc+" [xref offsets repaired]", fx)
+					}
+				}
+			}
 		case b.kind == "html":
 			htmlFaults(b, emit)
 			htmlDeepFaults(b, func(desc string, data, neutral []byte) {
